@@ -26,7 +26,7 @@ ASSUMPTIONS = [
 ]
 
 
-def prepare():
+def prepare_parent():
     strl.driver_binary()
 
 
@@ -251,7 +251,8 @@ def execute(case):
                                               f"(brute-force optimum {best}); case={case}", "strl.model_infeasible" + tag))
     elif not V and abs(info["opt"] - best) > 1e-6:
         V.append(Violation("optimum_differs", f"model optimum {info['opt']} != brute-force optimum {best} (decisions {best_dec}); case={case}",
-                           "strl.optimum_differs" + (".model_lower" if info["opt"] < best else ".model_higher") + tag))
+                           "strl.optimum_differs" + (".model_lower" if info["opt"] < best else ".model_higher") + tag
+                           + (infeasibility_cause(case) if info["opt"] < best else "")))
     leaves = [i for i, n in enumerate(case["nodes"]) if n["kind"] == "CHOOSE"]
     all_sat_util = None
     has_order = any(n["kind"] == "LESSTHAN" for n in case["nodes"])
@@ -264,44 +265,58 @@ def execute(case):
     return res
 
 
-def fixed_times(case, i):
-    """(start, end) if node i has constant times in the lowering, else None."""
+def const_end(case, i):
+    """The end time of node i if the lowering makes it a constant, else None."""
     n = case["nodes"][i]
     k = n["kind"]
     if k in ("CHOOSE", "ALLOCATION"):
-        return (n["start"], n["start"] + n["duration"])
+        return n["start"] + n["duration"]
     if k == "SCALE":
-        return fixed_times(case, n["children"][0])
+        return const_end(case, n["children"][0])
     if k == "LESSTHAN":
-        a, b = fixed_times(case, n["children"][0]), fixed_times(case, n["children"][1])
-        if a and b and a[1] <= b[0]:
-            return (a[0], b[1])
+        return const_end(case, n["children"][1])
     return None
 
 
-def latest_start(case, i):
+def const_start(case, i):
     n = case["nodes"][i]
     k = n["kind"]
-    if k == "CHOOSE":
-        return n["start"] if n["start"] >= case["now"] else None
-    if k == "ALLOCATION":
+    if k in ("CHOOSE", "ALLOCATION"):
         return n["start"]
-    vals = [latest_start(case, c) for c in n.get("children", [])]
-    vals = [v for v in vals if v is not None]
-    return max(vals) if vals else None
+    if k == "SCALE":
+        return const_start(case, n["children"][0])
+    if k == "LESSTHAN":
+        return const_start(case, n["children"][0])
+    return None
+
+
+def unsatisfied_start_bound(case, i):
+    """Upper bound of the (variable) start time of node i while it is unsatisfied."""
+    n = case["nodes"][i]
+    k = n["kind"]
+    if k == "MAX":
+        starts = [case["nodes"][c]["start"] for c in n["children"] if case["nodes"][c]["start"] >= case["now"]]
+        return min(starts) if starts else None
+    if k in ("SCALE", "LESSTHAN"):
+        return unsatisfied_start_bound(case, n["children"][0])
+    if k == "MIN":
+        vals = [unsatisfied_start_bound(case, c) for c in n["children"]]
+        vals = [v for v in vals if v is not None] + [const_start(case, c) for c in n["children"] if const_start(case, c) is not None]
+        return min(vals) if vals else None
+    return None
 
 
 def infeasibility_cause(case):
     """LessThan emits `end(first) <= start(second)` unconditionally: a constant end of the first child that lies after the
-    latest possible start of a variable-time second child makes the whole model infeasible."""
+    largest start the (variable-time) second child can take while unsatisfied forces the second child to be satisfied -
+    and makes the whole model infeasible when that is impossible."""
     for n in case["nodes"]:
         if n["kind"] == "LESSTHAN":
-            a = fixed_times(case, n["children"][0])
-            b = fixed_times(case, n["children"][1])
-            if a and not b:
-                ls = latest_start(case, n["children"][1])
-                if ls is not None and a[1] > ls:
-                    return ".unconditional_happens_before_with_fixed_first_child"
+            a = const_end(case, n["children"][0])
+            if a is not None and const_start(case, n["children"][1]) is None:
+                ub = unsatisfied_start_bound(case, n["children"][1])
+                if ub is not None and a > ub:
+                    return ".unconditional_happens_before_with_constant_first_end"
     return ""
 
 
@@ -364,8 +379,8 @@ def exec_coarse(case):
 
 
 CHECKS = [
-    Check("frontend_trees", execute, strategy=lambda tier: trees(), budget={"quick": 150, "thorough": 6000}),
-    Check("irregular_trees", execute, strategy=lambda tier: trees(irregular=True), budget={"quick": 60, "thorough": 2000}),
-    Check("passes_metamorphic", exec_passes, strategy=lambda tier: trees(passes=[]), budget={"quick": 60, "thorough": 2000}),
+    Check("frontend_trees", execute, strategy=lambda tier: trees(), budget={"quick": 120, "thorough": 6000}),
+    Check("irregular_trees", execute, strategy=lambda tier: trees(irregular=True), budget={"quick": 48, "thorough": 2000}),
+    Check("passes_metamorphic", exec_passes, strategy=lambda tier: trees(passes=[]), budget={"quick": 48, "thorough": 2000}),
     Check("coarse_discretization", exec_coarse, strategy=lambda tier: st.sampled_from([2, 3]).flatmap(lambda g: trees(gran=g, passes=[])), budget={"quick": 60, "thorough": 2000}),
 ]
